@@ -180,8 +180,9 @@ def check_order(perm: int, r0: int, r1: int, r2: int, nested: bool) -> bool:
 	# (such a table is not reachable from a module; see DESIGN.md C14)
 	pos = list(PERMS[perm])
 	if r0 != 1 and pos.index(r0) > min(pos.index(1), pos.index(3), pos.index(4)):
-		cover('skipped_unrealistic_order')
-		return True
+		# reachable through string annotations (`def f() -> 'Box[int]'` ahead of `T = TypeVar('T')` and `class Box(Generic[T])`);
+		# these orders were skipped as unrealistic until a seeding agent showed the module - the skip hid a genuine defect (DESIGN.md C14)
+		cover('forward_referenced_order')
 	db = SymbolDB()
 	db[OTHER] = other
 	for i in PERMS[perm]:
